@@ -90,6 +90,7 @@ let parse_wrap_case dom dim c =
   expect c "guard"; let hg = nexti c in let guard = if hg <> 0 then Some (read_cons c dim) else None in
   expect c "thr"; let thr = nexti c in
   expect c "ind"; let ind = nexti c <> 0 in
+  (match peek c with Some "st" -> ignore (next c); ignore (nexti c) | _ -> ());
   expect c "cand";
   let cand = List.init dim (fun _ -> let k = nexti c in List.init k (fun _ -> q_of_string (next c))) in
   expect c "ucand"; let k = nexti c in let ucand = List.init k (fun _ -> nextz c) in
@@ -253,6 +254,7 @@ let () =
                    expect c "vars"; let k = nexti c in
                    let vars = if k < 0 then None else Some (List.init k (fun _ -> nexti c)) in
                    expect c "cx"; ignore (nexti c);
+                   (match peek c with Some "st" -> ignore (next c); ignore (nexti c) | _ -> ());
                    expect c "cand";
                    let cand = List.init dim (fun _ -> let k = nexti c in List.init k (fun _ -> q_of_string (next c))) in
                    expect oc "out"; let out = read_descr oc dim in
